@@ -288,7 +288,7 @@ theorem C04_overrun_is_error {α : Type} (dc : DataCoder α) (s : SectionLayout)
 
 /- FULL STATEMENT (not proved in this round):
 
-   theorem C04_decode_encode (L hL cfg vals payload r) (dc : DataCoder α)
+   C04_decode_encode (L hL cfg vals payload r) (dc : DataCoder α)
        (hdec : ∀ reg x, ∃ a, dc.dec reg (payload ++ x) = .ok (a, x))          -- the reader accepts the payload
        (hvalid : supplied signatures are the expected ones, `bin` values have their declared width)
        (h : encode L cfg vals payload = .ok r) :
